@@ -165,7 +165,52 @@ def kinds_for(func: str):
     return ["SimpleCache", "MemoryFullCache[not shared]", "MemoryFullCache[shared]"]
 
 
+def discipline_scenario():
+    """Run-time contract of the discipline-level protocol with a full cache: a discipline with a str and a float output, executed four
+    times at the same input with MemoryFullCache (not shared / shared), must return what an uncached twin returns, the body running once."""
+    from numpy import array, ndarray
+
+    from gemseo.core.discipline import Discipline
+
+    class Labelled(Discipline):
+        def __init__(self):
+            super().__init__(name="Labelled")
+            self.io.input_grammar.update_from_types({"x": ndarray})
+            self.io.output_grammar.update_from_types({"y": ndarray, "label": str, "s": float})
+            self.n_runs = 0
+
+        def _run(self, input_data):
+            self.n_runs += 1
+            x = input_data["x"]
+            return {"y": 2.0 * x, "label": f"sum={x.sum():.1f}", "s": float(x.sum())}
+
+    def same(a, b):
+        if isinstance(a, ndarray) or isinstance(b, ndarray):
+            return isinstance(a, ndarray) and isinstance(b, ndarray) and a.shape == b.shape and bool((a == b).all())
+        return ((isinstance(a, str) and isinstance(b, str)) or (isinstance(a, (int, float)) and isinstance(b, (int, float)))) and a == b
+
+    for shared in (False, True):
+        d, twin = Labelled(), Labelled()
+        twin.set_cache(Discipline.CacheType.NONE)
+        d.set_cache(Discipline.CacheType.MEMORY_FULL, is_memory_shared=shared)
+        for n in range(4):
+            try:
+                got = dict(d.execute({"x": array([1.0, 2.0])}))
+            except Exception as e:  # noqa: BLE001
+                return {"shared": shared, "execution": n + 1, "exception": repr(e)}
+            exp = dict(twin.execute({"x": array([1.0, 2.0])}))
+            for k in exp:
+                if k not in got or not same(got[k], exp[k]):
+                    return {"shared": shared, "execution": n + 1, "name": k, "got": repr(got.get(k)), "expected": repr(exp[k])}
+        if d.n_runs != 1:
+            return {"shared": shared, "what": "number of runs of the body", "got": d.n_runs, "expected": 1}
+    return None
+
+
 def replay(ob, seed=0):
+    if ob.func.endswith("__can_load_cache") and "@full" in ob.name:
+        r = discipline_scenario()
+        return {"scenario": "discipline-with-a-full-cache-vs-uncached-twin", "failure": r} if r is not None else None
     want = None
     for name in ("cache_outputs", "cache_jacobian", "clear"):
         if ob.func.endswith("." + name):
@@ -196,6 +241,9 @@ def replay(ob, seed=0):
 
 
 def rerun(w):
+    if w.get("scenario") == "discipline-with-a-full-cache-vs-uncached-twin":
+        r = discipline_scenario()
+        return {"fails": r is not None, "failure": r}
     try:
         r = run(w["kind"], tuple(w["sequence_ids"]), w.get("enumerate_empty_hdf5", False))
     except Exception as e:  # noqa: BLE001
